@@ -5,11 +5,9 @@ package main
 // the panic-site inventory of the handshake files, and the mustSecure guard shape at the five Connect sites.
 
 import (
-	"bytes"
 	"fmt"
 	"go/ast"
 	"go/constant"
-	"go/printer"
 	"go/token"
 	"sort"
 	"strconv"
@@ -57,13 +55,7 @@ func c06eval(e ast.Expr, en env) constant.Value {
 	return evalExpr(e, en)
 }
 
-func src(e ast.Node) string {
-	var b bytes.Buffer
-	_ = printer.Fprint(&b, fset, e)
-	return strings.Join(strings.Fields(b.String()), " ")
-}
-
-func leanStr(s string) string { return strconv.Quote(s) }
+func leanStr06(s string) string { return strconv.Quote(s) }
 
 func init() {
 	extractors = append(extractors, func(o *out) {
@@ -76,7 +68,7 @@ func init() {
 		utilF := parse("internal/socketace/util.go")
 		en = fileConsts(utilF, en)
 		def := func(name, doc string, s string) {
-			fmt.Fprintf(b, "/-- %s = %s -/\ndef %s : List Nat := %s\n", doc, leanStr(s), name, leanBytes(s))
+			fmt.Fprintf(b, "/-- %s = %s -/\ndef %s : List Nat := %s\n", doc, leanStr06(s), name, leanBytes(s))
 		}
 		for _, c := range [][2]string{{"RequestMethod", "requestMethod"}, {"AcceptsProtocolVersion", "acceptsProtocolVersion"},
 			{"UserAgent", "userAgent"}, {"Capabilities", "capabilitiesHdr"}, {"CapabilityStartTls", "capabilityStartTls"},
@@ -308,7 +300,7 @@ func init() {
 		sites = uniq
 		qs := []string{}
 		for _, s := range sites {
-			qs = append(qs, "  "+leanStr(s))
+			qs = append(qs, "  "+leanStr06(s))
 		}
 		fmt.Fprintf(b, "/-- file:function:kind of every index / slice / unchecked type assertion / explicit panic call in the handshake files -/\ndef panicSites : List String := [\n%s]\n", strings.Join(qs, ",\n"))
 
@@ -353,7 +345,7 @@ func init() {
 			})
 			present := guardPos != token.NoPos && guardReturns
 			before := present && assignPos != token.NoPos && guardPos < assignPos && callPos != token.NoPos && callPos < guardPos
-			rows = append(rows, fmt.Sprintf("(%s, %v, %v)", leanStr(s.file+":"+s.recv+"."+s.fn), present, before))
+			rows = append(rows, fmt.Sprintf("(%s, %v, %v)", leanStr06(s.file+":"+s.recv+"."+s.fn), present, before))
 		}
 		fmt.Fprintf(c4, "/-- per upstream Connect: (site, `if … mustSecure && !cc.Secure() { return <error> }` present,\n    it follows NewClientConnection and precedes the assignment of ups.Connection) -/\ndef mustSecureGuards : List (String × Bool × Bool) := [\n  %s]\n", strings.Join(rows, ",\n  "))
 		// Upstreams.open: `ul.connection = a` only after `err = a.Connect(...)` and a `continue` on error
@@ -417,7 +409,7 @@ func init() {
 		if should == "" {
 			fail("NewClientConnection: shouldStartTls assignment not found")
 		}
-		fmt.Fprintf(c4, "/-- client.go NewClientConnection: shouldStartTls := %s -/\ndef shouldStartTlsShape : String := %s\n", should, leanStr(shape))
+		fmt.Fprintf(c4, "/-- client.go NewClientConnection: shouldStartTls := %s -/\ndef shouldStartTlsShape : String := %s\n", should, leanStr06(shape))
 		_ = sort.Strings
 	})
 }
